@@ -31,6 +31,7 @@ type Env struct {
 	// postLocals: ensures of the function under verification may name locals
 	// (their values at the return), after parameters and results
 	postLocals bool
+	inQuant    bool
 	// loopHead: when evaluating clauses of a loop, "rangeindex" denotes that
 	// loop's hidden index variable
 	loopHead *ssa.BasicBlock
@@ -447,7 +448,13 @@ func (ex *Exec) evSel(x *SSel, env *Env) Val {
 	}
 	fs := sortOf(f.Type())
 	h := ex.heapIn(env, fieldHeapName(sty, f), ArraySort(fs))
-	return TV(Select(h, base.T), f.Type())
+	r := Select(h, base.T)
+	if !env.inQuant {
+		// whatever a heap cell holds has been allocated already
+		ex.knownVal(env.st, r, f.Type())
+		ex.assumeTypeInv(env.st, r, f.Type())
+	}
+	return TV(r, f.Type())
 }
 
 func typeStr(t types.Type) string {
@@ -677,7 +684,9 @@ func (ex *Exec) evQuant(x *SQuant, env *Env) Val {
 	env.st.nfresh++
 	sym := fmt.Sprintf("q%d_%s", env.st.nfresh, mangle(x.Var))
 	bv := TV(mkTerm(sym, SortInt), types.Typ[types.Int])
-	body := ex.ev(x.Body, env.with(x.Var, bv))
+	qenv := env.with(x.Var, bv)
+	qenv.inQuant = true
+	body := ex.ev(x.Body, qenv)
 	ex.wantSort(body, SortBool, "quantifier body")
 	rng := And(Le(lo.T, bv.T), Lt(bv.T, hi.T))
 	// small constant ranges are expanded (keeps queries quantifier-free)
